@@ -421,6 +421,7 @@ enum Act {
     Trim,
     SetLead0,
     SetLead3,
+    PushCoef,
 }
 impl Sut for St {
     type Act = Act;
@@ -441,6 +442,9 @@ impl Sut for St {
             if self.m.len() <= 3 {
                 a.push(Act::MulSelf);
             }
+        }
+        if self.m.len() <= 5 {
+            a.push(Act::PushCoef);
         }
         if !self.m.is_empty() {
             a.push(Act::Deriv);
@@ -502,6 +506,11 @@ impl Sut for St {
                 self.p[l] = r(0);
                 self.m[l] = r(0);
                 hits.push("leading coefficient zeroed");
+            }
+            Act::PushCoef => {
+                // a coefficient appended through the coeffs() handle (a leading index remembered by an earlier trim() must not survive it)
+                self.p.coeffs().push(r(2));
+                self.m.push(r(2));
             }
             Act::SetLead3 => {
                 // a write through the index operator at the last stored position: after SetLead0 this is exactly the lowest position
